@@ -27,6 +27,17 @@ CHECKS["C02"] = dict(level="fault_enumeration", engine="sweep",
    note="Deployed fields: a passing invalid encoding / single-byte alteration has probability ~2^-57 per case and is treated as a violation. The (b) predictor uses the library FLP on the whole input (decided independently by C05). Adversarial proofs are exhaustive for Count/GF(17) only.",
    design="§2 C02")
 
+CHECKS["C17"] = dict(level="exploration", engine="sweep",
+   technique="bounded-exhaustive enumeration of ordered measurement pairs x sharding tapes on the real sharding code, byte-wise comparison of shares",
+   text="Every ordered pair of measurements (full domain when small, edge set otherwise) is sharded with identical randomness and nonce for all seven Prio3 types over 2..254 aggregators and 1..2 proofs (plus small-field instantiations where rejection sampling in share expansion is frequent) and for Poplar1 with all inputs of 1..6 bits and selected longer ones: helpers' Prio3 input shares and their joint-randomness parts, the leader's blind, and both Poplar1 input shares must be byte-identical; the leader's measurement-share difference must equal the difference of the two encodings computed from a separately constructed Type.",
+   note="Sharding randomness and nonces are a fixed tape alphabet.",
+   design="§2 C17")
+CHECKS["C18"] = dict(level="fault_enumeration", engine="sweep",
+   technique="fault enumeration over a per-aggregator mismatch matrix (ctx, nonce, key, algorithm id, identifier, handed share; all single and pairwise combinations) on the real verification code in wire and direct-object mode",
+   text="Each aggregator carries its own beliefs (ctx, nonce, verify key, algorithm id, identifier, which share it holds); every single and pairwise departure from the honest configuration is run through the real verify_init / verifier_shares_to_message / verify_next for all Prio3 types with 2..4 aggregators and Poplar1 inner and leaf levels, both with shares decoded from the wire under the aggregator's own identifier and with objects handed over directly; the expected outcome is computed from the final configuration (mismatch => some aggregator must fail; consistent key or, without joint randomness, consistent nonce substitution => honest output shares unchanged).",
+   note="An undetected mismatch by hash/proof collision (~2^-57 per case) would be reported as a violation; single-aggregator instances are excluded; tapes with coinciding seeds are excluded because they turn role swaps into no-ops.",
+   design="§2 C18")
+
 NOT_APPLICABLE = {}
 
 def main():
